@@ -361,6 +361,19 @@ func NewPool(self enode.ID, rng *rand.Rand) *Pool {
 			p.IPs = append(p.IPs, netip.AddrFrom4([4]byte{n[0], n[1], n[2], byte(h)}))
 		}
 	}
+	// beyond index 98: IPv6 addresses from two public /24s (the first two nets share one), an IPv6 LAN net, and the
+	// IPv4-mapped form (::ffff:a.b.c.d) of the first two public IPv4 nets and of the first LAN net. A mapped address is
+	// another address than its plain form for everything the table does (record comparison, /24 accounting).
+	for _, pre := range []string{"2a01:4f8:1::", "2a01:4f9:2::", "2607:f8b0:4::", "fd00:1:2::"} {
+		for h := 1; h <= 6; h++ {
+			p.IPs = append(p.IPs, netip.MustParseAddr(fmt.Sprintf("%s%x", pre, h)))
+		}
+	}
+	for _, n := range [][3]byte{{8, 8, 8}, {1, 2, 3}, {10, 1, 1}} {
+		for h := 1; h <= 14; h++ {
+			p.IPs = append(p.IPs, netip.AddrFrom16(netip.AddrFrom4([4]byte{n[0], n[1], n[2], byte(h)}).As16()))
+		}
+	}
 	p.Ports = []int{30303, 30304, 9000}
 	return p
 }
@@ -383,6 +396,18 @@ func (p *Pool) Rec(i int, rng *rand.Rand) Rec {
 		}
 	default:
 		ip = p.IPs[rng.Intn(len(p.IPs))]
+	}
+	switch rng.Intn(16) {
+	case 0: // the same address in the other representation (plain <-> IPv4-mapped)
+		if ip.Is4() {
+			ip = netip.AddrFrom16(ip.As16())
+		} else if ip.Is4In6() {
+			ip = ip.Unmap()
+		}
+	case 1: // an IPv6 home for this id (few hosts, so that ids share addresses and /24s)
+		ip = p.IPs[98+(int(id[31])+int(id[30]))%24]
+	case 2: // another host of the same IPv6 net as that home: a move within IPv6, port unchanged
+		ip = p.IPs[98+((int(id[31])+int(id[30]))%24/6)*6+rng.Intn(6)]
 	}
 	seq := uint64(rng.Intn(4))
 	port := p.Ports[0]
